@@ -651,6 +651,115 @@ fn vault_lock(a: &[&str]) -> String {
     out
 }
 
+/// authzone_run <kind rule|amount> <rk 0 NF|1 Resource> <rr> <ri> <amount attos> <dcp_some> <dcp> <gck> <gca> <g zone|-1>
+///              <n zones> { <parent zone|-1> <sim res> <impl res> <impl id> <n proofs> {<res> <amount> <id>}* }*
+/// Zone 0 is the actor's own auth zone. Resources: 0 XRD, 1 ACCOUNT_OWNER_BADGE, 5 PACKAGE_OF_DIRECT_CALLER, 6 GLOBAL_CALLER,
+/// 9 IDENTITY_OWNER_BADGE (stands for "none of the asked ones"). Runs the REAL Authorization::verify_proof_rule (Require /
+/// AmountOf = the thin public wrappers of auth_zone_stack_matches_rule / auth_zone_stack_has_amount) over real AuthZone
+/// substates behind the mock kernel. Prints `ok <0|1> <opened> <closed>` or `err`.
+fn authzone_run(a: &[&str]) -> String {
+    use radix_common::prelude::*;
+    use radix_engine::blueprints::resource::AuthZone;
+    use radix_engine::system::system_modules::auth::*;
+    use radix_engine::system::system_substates::FieldSubstate;
+    use radix_engine_interface::blueprints::resource::*;
+    let res = |r: i64| match r {
+        0 => XRD,
+        1 => ACCOUNT_OWNER_BADGE,
+        5 => PACKAGE_OF_DIRECT_CALLER_RESOURCE,
+        6 => GLOBAL_CALLER_RESOURCE,
+        _ => IDENTITY_OWNER_BADGE,
+    };
+    let pkg = |k: i64| match k {
+        0 => PACKAGE_PACKAGE,
+        1 => RESOURCE_PACKAGE,
+        2 => ACCOUNT_PACKAGE,
+        _ => IDENTITY_PACKAGE,
+    };
+    let gaddr = |k: i64| -> GlobalAddress {
+        match k {
+            0 => CONSENSUS_MANAGER.into(),
+            1 => GENESIS_HELPER.into(),
+            7 => FRAME_OWNED_GLOBAL_MARKER,
+            _ => TRANSACTION_TRACKER.into(),
+        }
+    };
+    let gcaller = |kind: i64, k: i64| -> GlobalCaller {
+        if kind == 0 {
+            GlobalCaller::GlobalObject(gaddr(k))
+        } else {
+            GlobalCaller::PackageBlueprint(BlueprintId::new(&ACCOUNT_PACKAGE, "Account"))
+        }
+    };
+    let gid = |r: i64, i: i64| -> NonFungibleGlobalId {
+        match r {
+            5 => NonFungibleGlobalId::package_of_direct_caller_badge(pkg(i)),
+            6 => NonFungibleGlobalId::global_caller_badge(if i == 2 { gcaller(1, 0) } else { gcaller(0, i) }),
+            _ => NonFungibleGlobalId::new(res(r), NonFungibleLocalId::integer(i as u64)),
+        }
+    };
+    let n = |t: &str| -> i64 { t.parse().unwrap() };
+    let mk = |b: u8| {
+        let mut x = [b; NodeId::LENGTH];
+        x[0] = EntityType::InternalGenericComponent as u8;
+        NodeId(x)
+    };
+    let zone_node = |z: i64| mk(10 + z as u8);
+    let (kind, rk, rr, ri, amount) = (a[0], n(a[1]), n(a[2]), n(a[3]), dec(a[4]));
+    let (dcp_some, dcp, gck, gca, gz) = (n(a[5]), n(a[6]), n(a[7]), n(a[8]), n(a[9]));
+    let nz = n(a[10]);
+    let mut i = 11;
+    let mut api = mock_api::MockApi::default();
+    let mut proof_no = 0u8;
+    for z in 0..nz {
+        let (parent, sr, ir, ii, np) = (n(a[i]), n(a[i + 1]), n(a[i + 2]), n(a[i + 3]), n(a[i + 4]));
+        i += 5;
+        let mut proofs = vec![];
+        for _ in 0..np {
+            let (pr, pa, pi) = (n(a[i]), dec(a[i + 1]), n(a[i + 2]));
+            i += 3;
+            let node = mk(100 + proof_no);
+            proof_no += 1;
+            api.outer_objects.insert(node, res(pr).into());
+            api.per_node.insert((node, PROOF_GET_AMOUNT_IDENT.to_string()), scrypto_encode(&pa).unwrap());
+            let ids: IndexSet<NonFungibleLocalId> = indexset!(NonFungibleLocalId::integer(pi as u64));
+            api.per_node.insert((node, NON_FUNGIBLE_PROOF_GET_LOCAL_IDS_IDENT.to_string()), scrypto_encode(&ids).unwrap());
+            proofs.push(Proof(Own(node)));
+        }
+        let mut sim = BTreeSet::new();
+        sim.insert(res(sr));
+        let mut implicit = BTreeSet::new();
+        implicit.insert(gid(ir, ii));
+        let zone = if z == 0 {
+            AuthZone::new(
+                proofs,
+                sim,
+                implicit,
+                if dcp_some == 1 { Some(pkg(dcp)) } else { None },
+                if gz >= 0 { Some((gcaller(gck, gca), Reference(zone_node(gz)))) } else { None },
+                if parent >= 0 { Some(Reference(zone_node(parent))) } else { None },
+            )
+        } else {
+            AuthZone::new(proofs, sim, implicit, None, None, if parent >= 0 { Some(Reference(zone_node(parent))) } else { None })
+        };
+        api.substates.insert(
+            zone_node(z),
+            radix_engine_interface::types::IndexedScryptoValue::from_typed(&FieldSubstate::new_unlocked_field(zone)),
+        );
+    }
+    let rule = if kind == "amount" {
+        BasicRequirement::AmountOf(amount, res(rr))
+    } else if rk == 0 {
+        BasicRequirement::Require(ResourceOrNonFungible::NonFungible(gid(rr, ri)))
+    } else {
+        BasicRequirement::Require(ResourceOrNonFungible::Resource(res(rr)))
+    };
+    match Authorization::verify_proof_rule(&zone_node(0), &rule, &mut api) {
+        Ok(b) => format!("ok {} {} {}", if b { 1 } else { 0 }, api.handles.len(), api.closed.len()),
+        Err(_) => "err".to_string(),
+    }
+}
+
 /// auth_run <held0> <held1> <held2> <proof present 0|1> <proof amount attos> <access rule in prefix notation>
 ///   access rule: ALLOW | DENY | P <composite>
 ///   composite:   B <basic> | ANY n <composite>.. | ALL n <composite>..
@@ -763,6 +872,7 @@ fn auth_run(a: &[&str]) -> String {
 fn run(a: &[&str]) -> String {
     match a[0] {
         "auth_run" => auth_run(&a[1..]),
+        "authzone_run" => authzone_run(&a[1..]),
         "vault_lock" => vault_lock(&a[1..]),
         "redeem_value" | "stake_roundtrip" => validator_ops(a),
         "cm_time" => cm_time(&a[1..]),
